@@ -552,3 +552,7 @@ def run(ck):
     # what one call leaves in the window is what the next call's matches copy: every part of the output reaches it
     c08.extend_siblings(ck, P)
     ck.assumptions += ["rustc MIR", "sibling exception table (rules/props/c04.py) confirmed by reading", "host target; K1"]
+
+# session 5 (round 10)
+EXPLANATION = EXPLANATION + " " + (
+    'PAIR/resume-atomicity does not take a store of `back` (the bit count inflateMark reports) for a record of progress: bits consumed before a suspension exit need a store that the re-entered arm picks up.')
